@@ -8,6 +8,10 @@ const DROP: &[&str] = &[
     "expires", "this_update", "next_update", "time", "timestamp", "last_exchange", "last_success",
     "manifest", "crl", "id", "id_cert", "session", "cmds", "tasks", "ret", "rrdp", "not_after",
     "not_before", "user_agent", "now", "t0", "per_ca", "quiescent", "n_accepted", "next_class_name", "old_repo", "ta_signer", "ta_proxy", "marker",
+    // rp.abstract (system harness, commit 617b977): the raw export of the repository content for the Lean
+    // relying-party model - serial numbers, CRL entries, manifest numbers, times: exactly what this view
+    // erases everywhere else (the walk's verdicts rp.problems / vrps / aspas / router_keys stay compared)
+    "abstract",
 ];
 
 fn is_num(s: &str) -> bool {
